@@ -177,81 +177,88 @@ func TestC05_Unknowns(t *testing.T) {
 					absNodes[name] = gen.DrawAbstraction(t, sc.Vals[name], 0)
 				}
 			}
-			absCtx := evalCtx(sc)
-			var absDesc []string
-			for name, an := range absNodes {
-				absCtx.Variables[name] = an.Abstract()
-			}
+			checkAbstraction(c, sc, expr, absNodes, dump)
+		})
+}
+
+// checkAbstraction runs one abstract evaluation against the original scope and four fresh
+// concretisations and judges each pair with the C05 relation.
+func checkAbstraction(c *hx.Case, sc *gen.Scope, expr hclsyntax.Expression, absNodes map[string]*gen.AbsNode, dump string) {
+	t := c.T
+	absCtx := evalCtx(sc)
+	var absDesc []string
+	for name, an := range absNodes {
+		absCtx.Variables[name] = an.Abstract()
+	}
+	for _, name := range sc.Names {
+		if an, ok := absNodes[name]; ok {
+			absDesc = append(absDesc, fmt.Sprintf("%s=%#v", name, an.Abstract()))
+			c.Class(fmt.Sprintf("abskind_%d", an.Kind))
+		}
+	}
+	c.Set("abstracted", absDesc)
+	var absVal cty.Value
+	var absDiags hcl.Diagnostics
+	c.Guard("abstract Value", func() { absVal, absDiags = expr.Value(absCtx) })
+
+	// the converse claim on the original concrete scope
+	var concVal cty.Value
+	var concDiags hcl.Diagnostics
+	c.Guard("concrete Value", func() { concVal, concDiags = expr.Value(evalCtx(sc)) })
+	if !concDiags.HasErrors() && !concVal.IsWhollyKnown() {
+		c.Failf("unknown-from-known-scope", "evaluation without unknowns returned %#v", concVal)
+	}
+	nontrivial := false
+	if len(absNodes) == 0 {
+		c.Class("nothing_abstracted")
+		c.Done(false, "")
+		return
+	}
+	if absDiags.HasErrors() {
+		c.Class("abstract_run_error")
+		c.Done(false, "")
+		return
+	}
+	c.Set("abstract_result", absVal.GoString())
+	promises := absVal.IsKnown() || absVal.Type() != cty.DynamicPseudoType
+	for k := 0; k < 5; k++ {
+		ctx := evalCtx(sc)
+		var concDesc []string
+		if k > 0 {
 			for _, name := range sc.Names {
 				if an, ok := absNodes[name]; ok {
-					absDesc = append(absDesc, fmt.Sprintf("%s=%#v", name, an.Abstract()))
-					c.Class(fmt.Sprintf("abskind_%d", an.Kind))
+					ctx.Variables[name] = an.Sample(t)
+					concDesc = append(concDesc, fmt.Sprintf("%s=%#v", name, ctx.Variables[name]))
 				}
 			}
-			c.Set("abstracted", absDesc)
-			var absVal cty.Value
-			var absDiags hcl.Diagnostics
-			c.Guard("abstract Value", func() { absVal, absDiags = expr.Value(absCtx) })
-
-			// the converse claim on the original concrete scope
-			var concVal cty.Value
-			var concDiags hcl.Diagnostics
-			c.Guard("concrete Value", func() { concVal, concDiags = expr.Value(evalCtx(sc)) })
-			if !concDiags.HasErrors() && !concVal.IsWhollyKnown() {
-				c.Failf("unknown-from-known-scope", "evaluation without unknowns returned %#v", concVal)
+		}
+		var cv cty.Value
+		var cd hcl.Diagnostics
+		c.Guard("concrete Value", func() { cv, cd = expr.Value(ctx) })
+		if cd.HasErrors() {
+			c.Class("concrete_run_error")
+			continue
+		}
+		c.Class("both_error_free")
+		if !cv.IsWhollyKnown() {
+			c.Set("concretisation", concDesc)
+			c.Failf("unknown-from-known-scope", "evaluation without unknowns returned %#v", cv)
+		}
+		if msg := consistent(absVal, cv, "result"); msg != "" {
+			if condDynamicBranch(expr, absCtx, ctx) && c.Known("cond-unconverted-when-other-branch-dynamic") {
+				c.Class("excluded_known_cond_dynamic")
+				continue
 			}
-			nontrivial := false
-			if len(absNodes) == 0 {
-				c.Class("nothing_abstracted")
-				c.Done(false, "")
-				return
-			}
-			if absDiags.HasErrors() {
-				c.Class("abstract_run_error")
-				c.Done(false, "")
-				return
-			}
-			c.Set("abstract_result", absVal.GoString())
-			promises := absVal.IsKnown() || absVal.Type() != cty.DynamicPseudoType
-			for k := 0; k < 5; k++ {
-				ctx := evalCtx(sc)
-				var concDesc []string
-				if k > 0 {
-					for _, name := range sc.Names {
-						if an, ok := absNodes[name]; ok {
-							ctx.Variables[name] = an.Sample(t)
-							concDesc = append(concDesc, fmt.Sprintf("%s=%#v", name, ctx.Variables[name]))
-						}
-					}
-				}
-				var cv cty.Value
-				var cd hcl.Diagnostics
-				c.Guard("concrete Value", func() { cv, cd = expr.Value(ctx) })
-				if cd.HasErrors() {
-					c.Class("concrete_run_error")
-					continue
-				}
-				c.Class("both_error_free")
-				if !cv.IsWhollyKnown() {
-					c.Set("concretisation", concDesc)
-					c.Failf("unknown-from-known-scope", "evaluation without unknowns returned %#v", cv)
-				}
-				if msg := consistent(absVal, cv, "result"); msg != "" {
-					if condDynamicBranch(expr, absCtx, ctx) && c.Known("cond-unconverted-when-other-branch-dynamic") {
-						c.Class("excluded_known_cond_dynamic")
-						continue
-					}
-					c.Set("concretisation", concDesc)
-					c.Set("concrete_result", cv.GoString())
-					c.Failf("inconsistent", "%s", msg)
-				}
-				if promises {
-					nontrivial = true
-				}
-			}
-			if nontrivial {
-				c.Class("nontrivial")
-			}
-			c.Done(nontrivial, dump+"|"+strings.Join(absDesc, ";"))
-		})
+			c.Set("concretisation", concDesc)
+			c.Set("concrete_result", cv.GoString())
+			c.Failf("inconsistent", "%s", msg)
+		}
+		if promises {
+			nontrivial = true
+		}
+	}
+	if nontrivial {
+		c.Class("nontrivial")
+	}
+	c.Done(nontrivial, dump+"|"+strings.Join(absDesc, ";"))
 }
